@@ -50,7 +50,7 @@ def run(prop, tier, seed, repo):
         for i, c in enumerate(cases):
             sessions.append({"tid": i + 1, "names": [g["name"] for g in c["games"]],
                              "kinds": [g["kind"] for g in c["games"]], "file": c["file"],
-                             "tgs": [g["tg"] for g in c["games"]], "style": i % 2,
+                             "tgs": [g["tg"] for g in c["games"]], "style": i % 3,
                              "uni": i % 4 == 3,      # non-ASCII game and action names (UTF-8 file)
                              "flags": [g.get("ps", "none") for g in c["games"]]})
         jobs = [{"kind": "batch", "names": s["names"], "tgs": s["tgs"], "file": s["file"], "style": s["style"],
